@@ -62,7 +62,10 @@ let run_w inp obs : string option * string option =
      | _ -> (Some (Printf.sprintf "%s: the handler did not receive the two messages (%s)" what o), None))
   | ["C07W"; capture; q; body; lead], [o] ->
     let cap = bytes_str (bytes_of_hex capture) in
-    if o = "-" then (None, None) else
+    (* "-": no message reached the handler; write-error: the server had already ended the call when the client wrote on *)
+    if o = "-" || o = "write-error" then (None, None)
+    else if o = "dial-error" || o = "handler-timeout" then
+      (Some (Printf.sprintf "WebSocket /c07w/{user_id} after an empty %s frame: %s" (if lead = "B" then "binary" else "text") o), None) else
     (match String.split_on_char ',' o with
      | m1 :: _ ->
        let u1 = match String.split_on_char '/' m1 with [u; _] -> bytes_str (bytes_of_hex u) | _ -> "?" in
